@@ -25,6 +25,10 @@ type Env struct {
 	frontierPre string
 	noLocals    bool
 	depth       int
+	loopOld     *State           // heap at the entry of the loop whose clause is being evaluated (loopentry(e))
+	loopVars    map[string]Value // entry values of that loop's header variables
+	iterOld     *State           // heap at the start of the current iteration (iterstart(e), step clauses)
+	iterVars    map[string]Value
 }
 
 func (x *Exec) newEnv(fr *Frame, st *State, at *ssa.BasicBlock) *Env {
@@ -630,6 +634,26 @@ func (x *Exec) evalCall(env *Env, e *Expr) Value {
 			}
 			sub := *env
 			sub.st = env.old
+			return x.evalExpr(&sub, e.Args[0])
+		case "loopentry", "iterstart":
+			// the expression evaluated in the heap (and with the header variables) of
+			// the loop's entry / of the start of the current iteration
+			o, vs := env.loopOld, env.loopVars
+			if e.X.Name == "iterstart" {
+				o, vs = env.iterOld, env.iterVars
+			}
+			if o == nil {
+				x.fail("%s() outside a loop clause that supports it", e.X.Name)
+			}
+			sub := *env
+			sub.st = o
+			sub.vars = map[string]Value{}
+			for k, v := range env.vars {
+				sub.vars[k] = v
+			}
+			for k, v := range vs {
+				sub.vars[k] = v
+			}
 			return x.evalExpr(&sub, e.Args[0])
 		case "len", "cap":
 			v := x.evalExpr(env, e.Args[0])
